@@ -63,6 +63,9 @@ def run(run):
     for N in ((64, 128, 256, 1024) if quick else (64, 128, 256, 512, 1024)):
         for _ in range(2 if quick else 6):
             configs.append((N, rng.randrange(1, N), rng.randrange(2), rng.random() < 0.5, None))
+    # high-rate codes put information on the least reliable positions: their check-node values are the smallest the decoder meets
+    for (N, k) in (((128, 127), (256, 250)) if quick else ((64, 63), (128, 127), (256, 250), (512, 496), (1024, 1000), (1024, 842))):
+        configs.append((N, k, rng.randrange(2), rng.random() < 0.5, None))
     for N in (4, 8, 16):
         for _ in range(3 if quick else 10):
             k = rng.randrange(1, N)
@@ -133,7 +136,7 @@ def run(run):
                         outs, r2 = [[] for _ in sel], True
                     for i, o in zip(sel, outs):
                         tid += 1
-                        evs.append({"ev": "Clean", "tid": tid, "msg": msgs[i], "out": o, "raised": r2})
+                        evs.append({"ev": "Clean", "tid": tid, "msg": msgs[i], "out": o, "raised": r2, "mag": str(mag), "batch": bsz})
                         meta.append((dname, dict(cfg, regime=regime)))
                         run.case(("clean", dname, regime, N, k, fz, il, mag, bsz, tuple(msgs[i])), nontrivial=True)
         # SC on arbitrary inputs against the textbook rule
